@@ -17,6 +17,7 @@ import numpy as np
 from .. import cards, rel, yrun
 from ..engine import digest
 
+HISTORY_SWEEP = True
 ID = "C08"
 MASS = {"charm": 1.51, "bottom": 4.92}
 IHQ = {"charm": 4, "bottom": 5}
